@@ -7,6 +7,8 @@ V = Path(__file__).resolve().parent.parent
 
 # finding id -> (property, commit, what failed)
 FIXED = {
+    ("C11", "parser-stack-memoryerror-escapes"): ("68e133e", "an expression nested tens of thousands of levels deep (`x = ----...1`) escaped from parse() as MemoryError (\"Parser stack overflowed\"), an internal error class; reported by a seeding sub-agent, reproduced by the deep-nesting scripts"),
+    ("C11", "folded-growth-not-prompt"): ("80dcd43", "a folded variable squared line after line (`a = a * a`) or a folded string doubled line after line made translation take minutes / gigabytes (not prompt); reported by a seeding sub-agent, reproduced by the growth scripts"),
     ("C02", "forward-helper-call-typed-int"): ("0a685e4", "a helper calling a helper defined further down took the callee's result for an int (`return scaled(v * 0.5)` truncated 7.5 to 7) and passed float arguments uncast (ambiguous call, no compile, when the callee had an int and a float variant); found by the program written after seeded change C01-9"),
     ("C07", "column0-comment-in-helper-hides-locals"): ("bc7d032", "a comment line at column 0 inside a helper body made the helper's local names (those that shadow a global) write the global: a re-layout with comments changed the firmware (introduced with ad7ffdb, reported by a seeding sub-agent, reproduced by the def-local skeleton)"),
     ("C01", "helper-global-shadowed-by-main-loop-local"): ("0aa309c", "a name a helper declared `global` and the main loop bound first was declared again as a local of loop(): the helper worked on a different variable and its updates were lost (introduced with ad7ffdb, found by the C09 thorough tier)"),
